@@ -320,6 +320,24 @@ def size_precedence(ctx, chk):
     """R20.6 the size passed to sample() wins over the size stored on the dataset (sample(n) returns n draws); without it the dataset's size is used."""
     ev = ctx.ev
     NDS = Sym("n_dataset", ("int", "notnone", "positive"))
+    # NormalDataset.sample: the class sizes handed to Scores sum to the governing n
+    for given, want in ((NN, NN), (None, NDS)):
+        def thunk_n():
+            o = normal_obj(ctx, {"n": NDS})
+            return ev.call(ev.getattr(o, "sample"), [given] if given is not None else [], {"rng": RNG})
+        rets, rs, _ = all_values(ctx, chk, thunk_n)
+        inst = "NormalDataset:sample(%s)" % ("n" if given is not None else "")
+        news = [e for o in rets for e in o.events if e["kind"] == "new" and e["cls"] == SCORES]
+        if len(rets) != 1 or len(news) != 1:
+            chk.unknown("R20.6", "%s: %d return paths, %d Scores constructions" % (inst, len(rets), len(news)))
+            continue
+        kw = news[0]["kwargs"]
+        sizes = [v.kwd("size") if isinstance(v, App) and v.fn == "rng:normal" else None for v in (kw.get("pos"), kw.get("neg"))]
+        if all(x is not None for x in sizes) and same(add(sizes[0], sizes[1]), want):
+            chk.hold("R20.6", inst, "class sizes sum to %s" % show(want))
+        else:
+            chk.violation("R20.6", ND + ".sample", inst, "sizes %s" % [show(x, 80) if x is not None else "?" for x in sizes],
+                          "the class sizes sum to %s" % ("the n passed to sample()" if given is not None else "the dataset's n"), ctx.where(ND + ".sample"))
     cases = [(BD, {"p": Sym("p", ("float", "notnone"))}), (CD, {"p1": Sym("p1", ("float", "notnone")), "p2": Sym("p2", ("float", "notnone")), "rho": Sym("rho", ("float", "notnone"))})]
     for cls, attrs in cases:
         short = cls.split(".")[-1]
